@@ -119,10 +119,10 @@ def cands : List String → Val → R (List (Option Val))
 /-- a key the model follows: non-empty components only -/
 def keyOk (key : String) : Bool := (splitDots key).all (· ≠ "")
 
+/-- every dot-separated component of the key, the empty one included, is a field name
+    (`''` looks the field named `''` up, `'a.'` the field `''` inside `a`) -/
 def candsKey (key : String) (d : Val) : R (List (Option Val)) :=
-  if key = "" then .ok [some d]
-  else if !keyOk key then unmodelled
-  else cands (splitDots key) d
+  cands (splitDots key) d
 
 /-! ### helpers.get_value_by_dot (without `can_generate_array`) -/
 
